@@ -423,6 +423,16 @@ class Interp:
                 obj.fields[target_expr.attr] = new
             else:
                 self.event("lost_mutation", st)
+        elif isinstance(target_expr, ast.Subscript):
+            # xs[i][j] = v: the updated inner container is stored back into the outer one
+            obj = self.eval(target_expr.value, env)
+            idx = self.eval_index(target_expr.slice, env)
+            if isinstance(obj, (DictV, ListV)):
+                new2 = self.ops.store_subscript(obj, idx, new, st, env, False)
+                if new2 is not None:
+                    self.rebind(target_expr.value, new2, env, st)
+            else:
+                self.event("lost_mutation", st)
         else:
             self.event("lost_mutation", st)
 
